@@ -19,8 +19,10 @@ import edits as ED
 import treedump
 
 
-def tree_requests(pr, edited):
-    """requests for every object of a problem: (req_fmt, req_fmt2, real_fmt, real_fmt2, flat_req, input_text)"""
+def tree_requests(pr, edited, version):
+    """requests for every object of a problem: trees with the real first and second format, the source text of
+    unedited data/surface inputs, and for cells the parts of the parameter loop with the text handed to the wrapper"""
+    import montepy
     out = []
     objs = list(pr.cells) + list(pr.surfaces) + list(pr.data_inputs)
     for o in objs:
@@ -30,7 +32,6 @@ def tree_requests(pr, edited):
                 o.validate()
                 o._update_values()
                 tree = o._tree
-                import montepy
                 if isinstance(o, montepy.Cell):
                     nodes = [n for k, n in tree.nodes.items() if k != "parameters"]
                 else:
@@ -44,9 +45,46 @@ def tree_requests(pr, edited):
                         src = "\n".join(o._input.input_lines)
                     out.append({"words": words, "real1": real1, "real2": real2, "src": src,
                                 "what": type(o).__name__})
+                if isinstance(o, montepy.Cell):
+                    req, real = treedump.cell_request(o, version)
+                    if real is not None:
+                        out.append({"cell": req, "real1": real, "what": "Cell parameter loop"})
         except Exception as e:
             continue
     return out
+
+
+def imp_scenario(rng):
+    """a cell whose IMP entries share trees, and a sequence of importance edits: the model's request and the
+    trees of the real Importance object afterwards, both as 'n,p=1;e=2'"""
+    import montepy
+    parts = rng.sample(["n", "p", "e", "h"], rng.randint(1, 4))
+    groups = []
+    rest = list(parts)
+    while rest:
+        k = rng.randint(1, len(rest))
+        groups.append((rest[:k], rng.choice([0, 1, 2, 0.5, 4])))
+        rest = rest[k:]
+    ops = [(rng.choice(parts), rng.choice([0, 1, 2, 0.5, 8, 3])) for _ in range(rng.randint(1, 6))]
+    text = "t\n1 0 -1 " + " ".join("imp:%s=%g" % (",".join(g), v) for g, v in groups) + "\n\n1 so 1\n\nmode " + \
+           " ".join(parts) + "\n\n"
+    pr = mp.read_problem(text)
+    cell = pr.cells[1]
+    pmap = {p.value.lower(): p for p in montepy.particle.Particle}
+    warnings.simplefilter("ignore")
+    for p, v in ops:
+        cell.importance[pmap[p]] = float(v)
+    seen = []
+    out = []
+    for part, tree in cell.importance._particle_importances.items():
+        if any(tree is t for t in seen):
+            continue
+        seen.append(tree)
+        names = [x.value.lower() for x in tree["classifier"].particles._particles_sorted]
+        out.append(",".join(names) + "=%g" % tree["data"][0].value)
+    req = "imp " + ";".join("%s=%g" % (",".join(g), v) for g, v in groups) + " " + " ".join("%s=%g" % o for o in ops)
+    written = " ".join(l for l in cell.format_for_mcnp_input((6, 2, 0)))
+    return req, ";".join(out), written
 
 
 def corr_tree(ctx, cases_progs, dist):
@@ -64,7 +102,13 @@ def corr_tree(ctx, cases_progs, dist):
                     ED.apply_program(pr, prog)
         except Exception:
             continue
-        for r in tree_requests(pr, bool(prog)):
+        for r in tree_requests(pr, bool(prog), rt.VERS[case["width"]]):
+            if "cell" in r:
+                reqs.append(r["cell"])
+                expect.append(treedump.hx(r["real1"]) if r["real1"] else "")
+                meta.append((r["what"], "text handed to the wrapper"))
+                dist["cell_loops"] = dist.get("cell_loops", 0) + 1
+                continue
             w = " ".join(r["words"])
             reqs.append("fmt " + w)
             expect.append(treedump.hx(r["real1"]) if r["real1"] else "")
@@ -74,22 +118,43 @@ def corr_tree(ctx, cases_progs, dist):
             meta.append((r["what"], "second format"))
             for k, v in treedump.stats(r["words"]).items():
                 dist["nodes"][k] = dist["nodes"].get(k, 0) + v
-            dist["edited_leaves"] += sum(1 for x in r["words"] if x.startswith("E") and len(x) > 0 and x != "E" * len(x) and all(c in "0123456789abcdef" for c in x[1:]))
+            dist["edited_leaves"] += sum(1 for x in r["words"] if len(x) > 1 and x[0] == "E"
+                                         and all(c in "0123456789abcdef" for c in x[1:]))
             if r["src"] is not None:
                 lossless["checked"] += 1
                 reqs.append("flat " + w)
                 expect.append(None)
                 meta.append((r["what"], r["src"]))
+    # importance sharing (Importance.__setitem__ / _unshare_tree) against the model's imp_set
+    n_imp = 40 if ctx.tier == "quick" else 600
+    for i in range(n_imp):
+        rng = random.Random(f"{ctx.seed}:imp:{i}")
+        try:
+            req, real, written = imp_scenario(rng)
+        except Exception as e:
+            ctx.broken_obligations.append({"obligation": "importance scenario runs on the real code", "detail": repr(e)[:300]})
+            break
+        reqs.append(req)
+        expect.append(real)
+        meta.append(("Importance", written))
+        dist["imp_scenarios"] = dist.get("imp_scenarios", 0) + 1
     answers = vlib.model_ask("Tree", reqs)
     bad = []
     for q, a, e, m in zip(reqs, answers, expect, meta):
         ctx.cov["programs"] += 1
         ctx.cov["disagreements_checked"] += 1
         if e is None:
-            # lossless statistic: flatten (dump) == text read (modulo the trailing-comment hand-over)
+            # hypothesis Lossless of the theorems, per input: flatten (dump of the parsed tree) == text read.
+            # parse_input() moves the trailing 'c' comment lines of an input to the start of the next one, so
+            # the comparison is exact (flatten_equals_input) or exact up to whole comment lines (modulo_comment_lines)
             txt = bytes.fromhex(a).decode("latin-1") if a and all(c in "0123456789abcdef" for c in a) else a
             if txt.rstrip() == m[1].rstrip():
                 lossless["flatten_equals_input"] += 1
+                lossless["modulo_comment_lines"] = lossless.get("modulo_comment_lines", 0) + 1
+            elif _no_c_lines(txt) == _no_c_lines(m[1]):
+                lossless["modulo_comment_lines"] = lossless.get("modulo_comment_lines", 0) + 1
+            else:
+                lossless.setdefault("not_lossless", []).append({"read": m[1][:300], "flatten": txt[:300]})
             continue
         a2 = "" if a == "" else a
         e2 = "" if e == "-" else e
@@ -99,13 +164,22 @@ def corr_tree(ctx, cases_progs, dist):
                                   sample=40 if ctx.tier == "quick" else 200, seed=ctx.seed)
     if xbad:
         ctx.broken_obligations.append({"obligation": "extraction cross-check Tree", "detail": xbad[:2]})
+    if lossless.get("not_lossless"):
+        ctx.broken_obligations.append({"obligation": "hypothesis as_parsed/Lossless: flatten(parsed tree) == text read "
+                                                     "(up to whole comment lines)",
+                                       "detail": {"n": len(lossless["not_lossless"]), "first": lossless["not_lossless"][0]}})
+        lossless["not_lossless"] = len(lossless["not_lossless"])
     if bad:
-        ctx.broken_obligations.append({"obligation": "correspondence Tree.format vs syntax_node format()",
-                                       "detail": {"n": len(bad), "first": bad[0]}})
+        ctx.broken_obligations.append({"obligation": "correspondence Tree.v (format, cell parameter loop, importance trees) "
+                                                     "vs the real code", "detail": {"n": len(bad), "first": bad[0]}})
     dist["lossless"] = lossless
     dist["tree_requests"] = len(reqs)
     dist["vm_crosschecked"] = nx
     return bad
+
+
+def _no_c_lines(text):
+    return [l.rstrip() for l in text.split("\n") if l.strip() and not spec.is_comment_line(l)]
 
 
 def load_corpus(prop):
@@ -176,7 +250,23 @@ def run_rt(ctx, prop, n_quick, n_thorough, gen_opts=None, with_edits=True):
             dist["features"][f] = dist["features"].get(f, 0) + 1
     # ---- correspondence of the tree layer on a share of the cases
     share = cases[: n_corpus + max(10, n // 4)]
-    corr_tree(ctx, [(c, p) for c, p, _ in share], dist)
+    corr = [(c, p) for c, p, _ in share]
+    if prop == "C19":
+        # hypothesis Lossless_on P g1 of C19_generation_fixed_point: the files MontePy WROTE (edited problems)
+        # go through the same flatten == text-read comparison as the generated inputs
+        dist["written_files_reparsed"] = 0
+        for c, p, _ in share[: max(10, len(share) // 2)]:
+            try:
+                pr = mp.read_problem(c["text"], version=rt.VERS[c["width"]])
+                with warnings.catch_warnings():
+                    warnings.simplefilter("ignore")
+                    ED.apply_program(pr, p)
+                g1 = mp.write_problem(pr, "corr_g1.i", rt.VERS[c["width"]])
+                corr.append(({"text": g1, "width": c["width"], "meta": {}}, []))
+                dist["written_files_reparsed"] += 1
+            except Exception:
+                pass
+    corr_tree(ctx, corr, dist)
     # ---- oracle
     for idx, (case, prog, from_corpus) in enumerate(cases):
         dist["widths"][str(case["width"])] += 1
